@@ -118,14 +118,19 @@ def match_brace(s, i):
         i += 1
     raise Unsupported("unbalanced braces")
 
-def find_fn(src, fn_name, impl_re=None, nth=0):
+def find_fn(src, fn_name, impl_re=None, nth=0, mod=None):
     """return (signature, body_text_with_braces) of `fn fn_name` — inside the first impl block whose header
     matches impl_re when given. `src` is the raw file text."""
     s = strip_comments(src)
     lo, hi = 0, len(s)
+    if mod:
+        mm = re.search(r'(?m)^\s*(?:pub(?:\([a-z]+\))?\s+)?mod\s+' + re.escape(mod) + r'\s*\{', s)
+        if not mm: raise Unsupported("module not found: " + mod)
+        lo = mm.end() - 1; hi = match_brace(s, lo)
     if impl_re:
         found = None
-        for m in re.finditer(r'(?m)^\s*impl\b[^{;]*\{', s):
+        for m in re.finditer(r'(?m)^\s*impl\b[^{;]*\{', s[:hi]):
+            if m.start() < lo: continue
             if re.search(impl_re, m.group(0)):
                 found = m; break
         if not found: raise Unsupported("impl block not found: " + impl_re)
@@ -253,10 +258,10 @@ class Parser:
             if self.atop(';'):
                 self.next(); stmts.append(('expr', e)); continue
             if self.atop('}'):
-                if e[0] in ('while', 'for'): stmts.append(('expr', e))
+                if e[0] in ('while', 'for', 'whilelet'): stmts.append(('expr', e))
                 else: tail = e
                 break
-            if e[0] in ('if', 'iflet', 'match', 'while', 'for', 'block'):
+            if e[0] in ('if', 'iflet', 'match', 'while', 'for', 'block', 'whilelet'):
                 stmts.append(('expr', e)); continue
             raise Unsupported(f"statement continues with {self.peek()[1]!r}")
         self.eatop('}')
@@ -275,7 +280,7 @@ class Parser:
                     hi = self.binexpr(1, False, nostruct)
                 return ('range', None, hi, incl)
         lhs = self.unary(stmt, nostruct)
-        if stmt and lhs[0] in ('if', 'iflet', 'match', 'while', 'for', 'block'):
+        if stmt and lhs[0] in ('if', 'iflet', 'match', 'while', 'for', 'block', 'whilelet'):
             return lhs      # block-like expression statement: no binary continuation
         while True:
             x = self.peek()
@@ -378,7 +383,9 @@ class Parser:
                 self.next(); return ('match', scrut, arms)
             if v == 'while':
                 self.next()
-                if self.atid('let'): raise Unsupported("while let")
+                if self.atid('let'):
+                    self.next(); pat = self.pattern(); self.eatop('='); ex = self.expr(nostruct=True)
+                    return ('whilelet', pat, ex, self.block())
                 c = self.expr(nostruct=True); return ('while', c, self.block())
             if v == 'for':
                 self.next(); pat = self.pattern(); self.eat('id', 'in')
